@@ -19,6 +19,36 @@ class _Plan:
     def __init__(self):
         self.at, self.kind, self.in_solver, self.count, self.fired_iter = None, None, 0, 0, None
         self.cur_iter = 0
+        self.site = ""
+        self.steps_in_iter = 0        # integrator steps started in the current iteration
+        self.fired_after_steps = -1   # ... when the fault fired
+
+
+def call_site():
+    """Where in the library the user function was called from when the fault fired: the integrator-level
+    sub-step (first frame of integrators.py below step/_step, or `transition` when the call is made by the
+    transition itself) and the outermost / innermost system methods on the stack."""
+    import sys
+
+    f = sys._getframe(2)
+    frames = []
+    while f is not None:
+        fn = f.f_code.co_filename.replace("\\", "/")
+        if "/mici/" in fn:
+            frames.append((fn.rsplit("/", 1)[1][:-3], f.f_code.co_name))
+        f = f.f_back
+    frames.reverse()    # outermost first
+    integ = [n for m, n in frames if m == "integrators" and n not in ("step", "_step")]
+    solv = [n for m, n in frames if m == "solvers"]
+    syst = [n for m, n in frames if m == "systems" and n not in ("wrapper", "<lambda>")]
+    parts = [integ[0] if integ else "transition"]
+    if solv:
+        parts.append(solv[0])
+    if syst:
+        parts.append(syst[0])
+        if len(syst) > 1:
+            parts.append(syst[-1])
+    return ">".join(parts)
 
 
 def scenarios(tier):
@@ -57,9 +87,11 @@ def run_chain(sc, fault_kind, at, seed=3):
         if plan.kind in ("ValueError", "LinAlgError"):
             if plan.in_solver == 0:
                 return None          # exceptions are only injected inside iterative solves
-            plan.fired_iter = plan.cur_iter
+            plan.fired_iter, plan.fired_after_steps = plan.cur_iter, plan.steps_in_iter
+            plan.site = call_site()
             return ValueError("injected") if plan.kind == "ValueError" else LinAlgError("injected")
-        plan.fired_iter = plan.cur_iter
+        plan.fired_iter, plan.fired_after_steps = plan.cur_iter, plan.steps_in_iter
+        plan.site = call_site()
         return plan.kind
 
     n = 3
@@ -88,13 +120,24 @@ def run_chain(sc, fault_kind, at, seed=3):
         integ = I.ConstrainedLeapfrogIntegrator(system, 0.1, projection_solver=in_solver(solver))
     errs_this_iter = []
     real_step = integ.step
+    # candidates generated in the current iteration: [position, clean]; a candidate is clean if the fault had not
+    # fired by the time the transition was done with it (its energy evaluated, the next step requested)
+    cands = []
+
+    def settle():
+        if cands and cands[-1][1] is None:
+            cands[-1][1] = plan.fired_iter is None or plan.fired_iter < plan.cur_iter
 
     def step(state):
+        settle()
+        plan.steps_in_iter += 1
         try:
-            return real_step(state)
+            new = real_step(state)
         except IntegratorError as e:
             errs_this_iter.append(type(e).__name__)
             raise
+        cands.append([np.array(new.pos), None])
+        return new
 
     integ.step = step
     if sc["trans"] == "static":
@@ -120,7 +163,9 @@ def run_chain(sc, fault_kind, at, seed=3):
     iters, escaped = [], ""
     for it in range(1, N_ITER + 1):
         plan.cur_iter = it
+        plan.steps_in_iter = 0
         errs_this_iter.clear()
+        cands.clear()
         prev = np.array(state.pos)
         try:
             with warnings.catch_warnings():
@@ -132,7 +177,12 @@ def run_chain(sc, fault_kind, at, seed=3):
                 raise
             escaped = f"{type(e).__name__}: {e}"[:120]
             break
+        settle()
         fin = bool(np.all(np.isfinite(state.pos)) and np.all(np.isfinite(state.mom)))
+        moved = bool(not np.array_equal(prev, state.pos))
+        # the new state is a candidate the transition finished with only after the fault had fired
+        match = [c for c in cands if np.array_equal(c[0], state.pos)]
+        postfault = bool(moved and match and not any(c[1] for c in match))
         valid = False
         if fin:
             chk = ChainState(pos=np.array(state.pos), mom=np.array(state.mom), dir=1)
@@ -146,14 +196,18 @@ def run_chain(sc, fault_kind, at, seed=3):
         iters.append({"errs": sorted(set(errs_this_iter)), "conv": bool(st["convergence_error"]),
                       "nonrev": bool(st["non_reversible_step"]), "div": bool(st.get("diverging", False)),
                       "accfinite": bool(np.isfinite(acc) and 0.0 <= acc <= 1.0), "acczero": bool(acc == 0.0),
-                      "finite": fin, "valid": valid, "moved": bool(not np.array_equal(prev, state.pos)),
+                      "finite": fin, "valid": valid, "moved": moved, "postfault": postfault,
+                      "intraj": bool(plan.fired_iter == it and plan.fired_after_steps >= 1),
+                      "hfault": bool(plan.fired_iter == it and plan.fired_after_steps >= 1 and plan.site.startswith("transition>h")),
                       "faulted": plan.fired_iter == it})
     return {"kind": f"{sc['system']}/{sc['integ']}/{sc['trans']}" + (f"/{sc['solver']}" if sc.get("solver") else ""),
             "fault": fault_kind or "none", "at": at or 0, "completed": len(iters) == N_ITER, "escaped": escaped,
-            "iters": iters, "fired": plan.fired_iter is not None, "sc": sc}, plan.count
+            "iters": iters, "fired": plan.fired_iter is not None, "sc": sc, "site": plan.site,
+            "dynamic": sc["trans"] != "static"}, plan.count
 
 
-INVS = ["ChainContinues", "StateStaysValid", "FlagsRecordFailures", "FailureIsRejection", "NoSpuriousFlags"]
+INVS = ["ChainContinues", "StateStaysValid", "FlagsRecordFailures", "FailureIsRejection", "NoSpuriousFlags",
+        "NoPostFaultCandidate", "DivergenceRecorded"]
 
 
 def validate(records, name):
@@ -162,12 +216,12 @@ def validate(records, name):
 
     def it_tla(r):
         return ("[errs |-> %s, conv |-> %s, nonrev |-> %s, div |-> %s, accfinite |-> %s, acczero |-> %s, finite |-> %s, "
-                "valid |-> %s, moved |-> %s, faulted |-> %s]") % (
+                "valid |-> %s, moved |-> %s, faulted |-> %s, postfault |-> %s, intraj |-> %s, hfault |-> %s]") % (
             tlc.to_tla(set(r["errs"])) if r["errs"] else "{}", *(tlc.to_tla(r[k]) for k in
-                                                                  ("conv", "nonrev", "div", "accfinite", "acczero", "finite", "valid", "moved", "faulted")))
+                                                                  ("conv", "nonrev", "div", "accfinite", "acczero", "finite", "valid", "moved", "faulted", "postfault", "intraj", "hfault")))
 
-    chains = ",\n ".join('[kind |-> %s, fault |-> %s, at |-> %d, completed |-> %s, escaped |-> %s, iters |-> <<%s>>]' % (
-        tlc.tla_str(r["kind"]), tlc.tla_str(r["fault"]), r["at"], tlc.to_tla(r["completed"]), tlc.tla_str(r["escaped"]),
+    chains = ",\n ".join('[kind |-> %s, fault |-> %s, at |-> %d, completed |-> %s, escaped |-> %s, dynamic |-> %s, iters |-> <<%s>>]' % (
+        tlc.tla_str(r["kind"]), tlc.tla_str(r["fault"]), r["at"], tlc.to_tla(r["completed"]), tlc.tla_str(r["escaped"]), tlc.to_tla(r["dynamic"]),
         ", ".join(it_tla(x) for x in r["iters"])) for r in records)
     (d / "ChainData.tla").write_text(f"---- MODULE ChainData ----\nChains == <<\n {chains}\n>>\n====\n")
     failures, states = [], 0
@@ -177,9 +231,9 @@ def validate(records, name):
         guard = 0
         while cur and guard < 60:
             guard += 1
-            chains_sub = ",\n ".join('[kind |-> %s, fault |-> %s, at |-> %d, completed |-> %s, escaped |-> %s, iters |-> <<%s>>]' % (
+            chains_sub = ",\n ".join('[kind |-> %s, fault |-> %s, at |-> %d, completed |-> %s, escaped |-> %s, dynamic |-> %s, iters |-> <<%s>>]' % (
                 tlc.tla_str(records[j]["kind"]), tlc.tla_str(records[j]["fault"]), records[j]["at"], tlc.to_tla(records[j]["completed"]),
-                tlc.tla_str(records[j]["escaped"]), ", ".join(it_tla(x) for x in records[j]["iters"])) for j in cur)
+                tlc.tla_str(records[j]["escaped"]), tlc.to_tla(records[j]["dynamic"]), ", ".join(it_tla(x) for x in records[j]["iters"])) for j in cur)
             (d / "ChainData.tla").write_text(f"---- MODULE ChainData ----\nChains == <<\n {chains_sub}\n>>\n====\n")
             res = tlc.run_tlc(d, "ChainMonitor", f"SPECIFICATION Spec\nINVARIANT {inv}\nCHECK_DEADLOCK FALSE\n", workers=2, timeout=600, cpus=2)
             states += res.distinct
@@ -194,8 +248,8 @@ def validate(records, name):
             bad = records[cur[qi - 1]]
 
             def cls(r):
-                return (r["sc"]["system"], r["sc"]["integ"], r["fault"] in ("nan", "inf", "-inf") or r["fault"],
-                        r["escaped"].split(":")[0])
+                return (r["sc"]["system"], r["sc"]["integ"], r["sc"].get("solver"), r["fault"] in ("nan", "inf", "-inf") or r["fault"],
+                        r["escaped"].split(":")[0], r["site"] if r["escaped"] else "")
 
             cur = [j for j in cur if cls(records[j]) != cls(bad)]
     return failures, states
@@ -217,10 +271,11 @@ def extend(out, tier, seed):
         r = records[j]
         itrec = r["iters"][i - 1] if 0 < i <= len(r["iters"]) else None
         fclass = "nonfinite-model-output" if r["fault"] in ("nan", "inf", "-inf") else r["fault"]
-        sig = f"C12:chain:{r['sc']['system']}:{r['sc']['integ']}:{fclass}:{inv}" + (
-            f":{r['escaped'].split(':')[0]}" if r["escaped"] else "")
+        integ = r["sc"]["integ"] + (f"[{r['sc']['solver']}]" if r["sc"].get("solver") else "")
+        sig = f"C12:chain:{r['sc']['system']}:{integ}:{fclass}:{inv}" + (
+            f":{r['escaped'].split(':')[0]}:at={r['site']}" if r["escaped"] else "")
         out.violate(sig,
-                    f"{r['kind']}: fault {r['fault']} at user-function call {r['at']}: {inv} violated"
+                    f"{r['kind']}: fault {r['fault']} at user-function call {r['at']} (made from {r['site']}): {inv} violated"
                     + (f" in iteration {i}: {itrec}" if itrec else f" (escaped: {r['escaped']}, completed: {r['completed']})"),
                     {"engine": "chain-faults", "sc": r["sc"], "fault": r["fault"], "at": r["at"]})
     cov = out.coverage
